@@ -284,32 +284,41 @@ def gen_kernel(r, k):
     return name, lim, src, files, weights, count, bound != lim
 
 
+_GEOM = {}
+
+
 def real_geometry(n, block):
-    """drive the REAL KernelCupy / KernelPyopencl __call__ with recording fakes"""
+    """drive the REAL KernelCupy / KernelPyopencl __call__ with recording fakes; ONE kernel object per block size is called again
+    and again with changing n (the launch geometry is a function of the current call's n, not of an earlier call's)"""
     xo = common.import_xobjects()
     from xobjects.context_cupy import KernelCupy
     from xobjects.context_pyopencl import KernelPyopencl
 
-    rec = {}
-    k = xo.Kernel(args=[xo.Arg(xo.Int32, name="n")], n_threads="n")
+    if block not in _GEOM:
+        rec = {}
+        k = xo.Kernel(args=[xo.Arg(xo.Int32, name="n")], n_threads="n")
 
-    def f1(grid, blk, args, shared_mem=0):
-        rec["grid"], rec["block"] = int(grid[0]), int(blk[0])
+        def f1(grid, blk, args, shared_mem=0, rec=rec):
+            rec["grid"], rec["block"] = int(grid[0]), int(blk[0])
 
-    class Ev:
-        def wait(self):
-            pass
+        class Ev:
+            def wait(self):
+                pass
 
-    def f2(queue, gsize, lsize, *args):
-        rec["global"] = int(gsize[0])
-        return Ev()
+        def f2(queue, gsize, lsize, *args, rec=rec):
+            rec["global"] = int(gsize[0])
+            return Ev()
 
-    class Cq:
-        queue = None
+        class Cq:
+            queue = None
 
-    KernelCupy(function=f1, description=k, block_size=block, context=None, shared_mem_size_bytes=0)(n=n)
-    KernelPyopencl(function=f2, description=k, context=Cq(), wait_on_call=True)(n=n)
-    return rec
+        _GEOM[block] = (rec, KernelCupy(function=f1, description=k, block_size=block, context=None, shared_mem_size_bytes=0),
+                        KernelPyopencl(function=f2, description=k, context=Cq(), wait_on_call=True))
+    rec, kc, ko = _GEOM[block]
+    rec.clear()
+    kc(n=n)
+    ko(n=n)
+    return dict(rec)
 
 
 def run_launch(tier, seed, fails, mism, tags, samples):
